@@ -44,12 +44,17 @@ def St.init : St := { store := TtlMap.init, execs := [] }
 
 inductive Op where
   | call (k : Nat)     -- a call whose bound arguments render to key `k`
+  | lost (k : Nat)     -- such a call under thunder protection (`protected=True`) whose caller is cancelled while the
+                       -- function is running: the call itself is shielded (`asyncio.shield(task)`) and completes
+  | cut (k : Nat)      -- such a call without thunder protection whose caller is cancelled as the function starts to
+                       -- work: `CancelledError` (not an `Exception`) leaves `_wrap` at once, nothing is computed or stored
   | adv (dt : Nat)
   deriving DecidableEq, Repr
 
 inductive Out where
   | unit
   | got (r : Res) (cached : Bool)    -- the caller got `r` (returned, or raised if `r` is `exc`); from the store?
+  | lost (executed : Bool)           -- the caller was cancelled and got nothing; did the execution complete all the same?
   deriving DecidableEq, Repr
 
 /-- `_wrap`:
@@ -61,9 +66,7 @@ inductive Out where
     _ttl = ttl_to_seconds(ttl, *args, **kwargs, result=result, with_callable=True)
     (condition, set - see `accepts`);  raise / return
 ``` -/
-def step (cfg : Cfg) (script : Nat → Beh) (s : St) : Op → St × Out
-  | .adv dt => ({ s with store := advance s.store dt }, .unit)
-  | .call k =>
+def callStep (cfg : Cfg) (script : Nat → Beh) (s : St) (k : Nat) : St × Out :=
     match s.store.find k with
     | some e => (s, .got (Res.dec e.val) true)
     | none =>
@@ -73,6 +76,22 @@ def step (cfg : Cfg) (script : Nat → Beh) (s : St) : Op → St × Out
       let t1 := advance s.store b.dur
       let t2 := if accepts cfg.cond b then t1.write k r.enc (some (cfg.ttl k r)) else t1
       ({ store := t2, execs := s.execs ++ [⟨k, t1.now, b, r⟩] }, .got r false)
+
+/-- what a caller that is cancelled while the function runs gets to see: an answer from the store comes before anything
+suspends (the caller has it), the outcome of an execution does not reach it -/
+def Out.hide : Out → Out
+  | .got _ false => .lost true
+  | o => o
+
+def step (cfg : Cfg) (script : Nat → Beh) (s : St) : Op → St × Out
+  | .adv dt => ({ s with store := advance s.store dt }, .unit)
+  | .call k => callStep cfg script s k
+  | .lost k =>      -- `thunder_protection`: `task = create_task(func(...)); return await asyncio.shield(task)`
+    ((callStep cfg script s k).1, (callStep cfg script s k).2.hide)
+  | .cut k =>
+    match s.store.find k with
+    | some e => (s, .got (Res.dec e.val) true)
+    | none => (s, .lost false)
 
 def run (cfg : Cfg) (script : Nat → Beh) (s : St) : List Op → St × List Out
   | [] => (s, [])
